@@ -335,3 +335,27 @@ Proof.
   change (sum_yields (x :: l)) with (att_yields x + sum_yields l)%nat.
   destruct x; try discriminate; cbn [att_run]; rewrite IH; reflexivity.
 Qed.
+
+(* ------------------------------------------------------------------ PDF: AES is installed before any page is read *)
+Lemma pdf_pages_installed e i0 inst :
+  on_fallback e = true -> p_is_encrypted (pe_view e) = true ->
+  pdf_decide true e i0 = PdfPages inst -> inst = true.
+Proof.
+  unfold pdf_decide, pdf_open. intros F E.
+  rewrite F, E. cbn [andb]. destruct (ctor_needs_aes e && negb i0).
+  - destruct (pdf_detect (pe_view e)); intro H; inversion H; reflexivity.
+  - rewrite orb_true_r. destruct (pdf_detect (pe_view e)); intro H; inversion H; reflexivity.
+Qed.
+
+Lemma pdf_decision_history_free e i0 i1 :
+  on_fallback e = true ->
+  match pdf_decide true e i0, pdf_decide true e i1 with
+  | PdfDependency, PdfDependency => True
+  | PdfRejected _, PdfRejected _ => True
+  | PdfPages a, PdfPages b => p_is_encrypted (pe_view e) = true -> a = b
+  | _, _ => False
+  end.
+Proof.
+  unfold pdf_decide, pdf_open. intro F. rewrite F.
+  destruct (ctor_needs_aes e), i0, i1, (pdf_detect (pe_view e)), (p_is_encrypted (pe_view e)); cbn; auto.
+Qed.
